@@ -1672,6 +1672,14 @@ func (s *storeImpl) exec(toks []string) (out string) {
 		if !ok {
 			return "bad-op"
 		}
+		// the same content cut into other compression blocks must restore alike: every other restore reads a copy
+		// of the stream whose blocks end at pseudo-random places (a reader of a compressed stream returns short at
+		// each block end)
+		if !apiPinned && c.apiVariant()%2 == 1 {
+			if alt, ok := reblock(data); ok {
+				data = alt
+			}
+		}
 		if err := c.c.Restore(bytes.NewReader(data)); err != nil {
 			return "err"
 		}
